@@ -316,7 +316,10 @@ Proof.
     assert (Hqn : 2 ^ MANTISSA_SIZE k <= q) by (destruct Hcan as [H|H]; [destruct k; kconst; lia|exact H]).
     assert (Henc : Z.of_N (INFINITY_BITS k) <= encZ k q E).
     { rewrite INF_shape. unfold encZ. destruct (Z.ltb_spec q (2 ^ MANTISSA_SIZE k)); [lia|].
-      assert (0 < 2 ^ MANTISSA_SIZE k) by (apply pow2_pos; destruct k; kconst; lia). nia. }
+      assert (Hpp : 0 < 2 ^ MANTISSA_SIZE k) by (apply pow2_pos; destruct k; kconst; lia).
+      assert ((MAX_EXPONENT k + EXPONENT_BIAS k) * 2 ^ MANTISSA_SIZE k <= (E + EXPONENT_BIAS k) * 2 ^ MANTISSA_SIZE k)
+        by (apply Z.mul_le_mono_nonneg_r; lia).
+      lia. }
     assert (Horc : orc D ed = INFINITY_BITS k).
     { (* x > (2^63 - 292) * 2^e3 >= the halfway point above the largest finite float *)
       set (bm := (INFINITY_BITS k - 1)%N).
@@ -330,9 +333,13 @@ Proof.
       rewrite bpow_up by (unfold E in Hovf; destruct k; kconst; lia). apply coef_le; [exact Ht|].
       assert (Hpw : 2 ^ (MAX_EXPONENT k - 2 - e3) <= 2 ^ (DEFAULT_SHIFT k - 2)) by (apply Z.pow_le_mono_r; unfold E in Hovf; destruct k; kconst; lia).
       assert (Hpw0 : 0 < 2 ^ (MAX_EXPONENT k - 2 - e3)) by (apply pow2_pos; unfold E in Hovf; destruct k; kconst; lia).
-      destruct k; kconst; change (2 ^ (11 - 2)) with 512 in Hpw; change (2 ^ (40 - 2)) with 274877906944 in Hpw;
-        change (2 ^ (52 + 1)) with 9007199254740992; change (2 ^ (23 + 1)) with 16777216;
-        change (2 ^ 63) with 9223372036854775808 in Hm'; nia. }
+      set (X := 2 ^ (MAX_EXPONENT k - 2 - e3)) in *.
+      assert (Hmul : (2 * 2 ^ prec k - 1) * X <= (2 * 2 ^ prec k - 1) * 2 ^ (DEFAULT_SHIFT k - 2))
+        by (apply Z.mul_le_mono_nonneg_l; [assert (0 < 2 ^ prec k) by (apply pow2_pos; destruct k; kconst; lia); lia|exact Hpw]).
+      apply Z.le_trans with (1 := Hmul). clear Hmul Hpw Hpw0. clearbody X.
+      change (2 ^ 63) with 9223372036854775808 in Hm'.
+      destruct k; kconst; change (2 ^ (11 - 2)) with 512; change (2 ^ (40 - 2)) with 274877906944;
+        change (2 ^ (52 + 1)) with 9007199254740992; change (2 ^ (23 + 1)) with 16777216; lia. }
     split.
     - intros _. rewrite Hfl, Horc.
       assert (0 <= dec_of (r ?= h) q <= 1) by apply dec_of_range. rewrite Z.min_r by lia. apply N2Z.id.
@@ -352,24 +359,24 @@ Proof.
       replace (r ?= h) with Gt by (symmetry; apply Z.compare_gt_iff; lia). unfold dec_of.
       rewrite (L_up b Hb).
       * rewrite Z.min_l by lia. lia.
-      * rewrite HbM, HbE. rewrite RE1. apply Rle_lt_trans with (2 := Hlo). apply coef_le; [exact Ht|]. unfold h in *. nia.
+      * rewrite HbM, HbE. rewrite RE1. apply Rle_lt_trans with (2 := Hlo). apply coef_le; [exact Ht|]. rewrite Hmqr, H2s. lia.
       * right. rewrite HbM, HbE. rewrite RE, RE2. apply Rlt_le in Hhi. apply Rle_trans with (1 := Hhi).
-        rewrite <- Rmult_plus_distr_r, <- plus_IZR. apply coef_le; [exact Ht|]. unfold h4 in *. nia.
+        rewrite <- Rmult_plus_distr_r, <- plus_IZR. apply coef_le; [exact Ht|]. rewrite Hmqr. lia.
     + (* rounds down *)
       assert (Hdn' : r <= h - er).
       { destruct Hacc as [Hc|Hc]; [apply Z.ltb_ge in Hc; lia|apply Z.ltb_ge in Hc; lia]. }
       replace (r ?= h) with Lt by (symmetry; apply Z.compare_lt_iff; lia). unfold dec_of.
       rewrite (L_down b Hb).
       * rewrite Z.add_0_r. exact Hdnb.
-      * rewrite HbM, HbE. rewrite RE1. apply Rlt_le_trans with (1 := Hhi). apply coef_le; [exact Ht|]. unfold h in *. nia.
+      * rewrite HbM, HbE. rewrite RE1. apply Rlt_le_trans with (1 := Hhi). apply coef_le; [exact Ht|]. rewrite Hmqr, H2s. lia.
       * rewrite HbM, HbE. rewrite RE, RE2. apply Rle_lt_trans with (2 := Hlo).
-        rewrite <- Rmult_minus_distr_r, <- minus_IZR. apply coef_le; [exact Ht|]. unfold h4 in *. nia.
+        rewrite <- Rmult_minus_distr_r, <- minus_IZR. apply coef_le; [exact Ht|]. rewrite Hmqr. lia.
   - (* not accurate: x is strictly inside the bracket of the downward float *)
     intros Hacc. apply negb_false_iff in Hacc. apply andb_prop in Hacc. destruct Hacc as (Hc1 & Hc2).
     apply Z.ltb_lt in Hc1, Hc2. cbv zeta. rewrite Hdn, Hdnb, Hbsp.
     split; [exact Hb|]. rewrite HbM, HbE. unfold in_ulp. rewrite !RE. split.
-    + apply Rlt_le. apply Rle_lt_trans with (2 := Hlo). apply coef_le; [exact Ht|]. unfold h in *. nia.
-    + apply Rlt_le_trans with (1 := Hhi). apply coef_le; [exact Ht|]. unfold h in *. nia.
+    + apply Rlt_le. apply Rle_lt_trans with (2 := Hlo). apply coef_le; [exact Ht|]. rewrite Hmqr. lia.
+    + apply Rlt_le_trans with (1 := Hhi). apply coef_le; [exact Ht|]. rewrite Hmqr, H2s. lia.
 Qed.
 
 (* ------------------------------------------------------------------ *)
